@@ -316,7 +316,7 @@ def slices(ctx, cone):
                     sx = U.strip(norm(x))
                     if sx == ("enum_idx",) or (sx[0] == "w" and sx[1] == ("enum_idx",)):
                         continue  # the enumerate() index of the vector being iterated
-                    if what == "index < length" and "'top'" in repr(sx) and len(raw) == 2 and not shrinks_vector(b, elem_ty) \
+                    if what == "index < length" and "'top'" in repr(sx) and len(raw) == 2 and (kind in ("remove", "swap_remove") or not shrinks_vector(b, elem_ty)) \
                             and enumerate_index_provenance(b, raw[1]):
                         continue  # widened by the path analysis; every definition is an enumerate() index (MIR slice)
                     bad = bad or "%s at %s: %s %s %s is not established on the path" % (
